@@ -45,6 +45,7 @@ def run(ctx):
             check_ve(ctx, fi)
     ctx.floor('exp sites on query paths', n_exp, 5)
     check_project(ctx, repo.nfunc(GM, 'GraphicalModel.project'))
+    check_queries_pure(ctx)
     check_many(ctx, repo.nfunc(GM, 'GraphicalModel.calculate_many_marginals'))
     check_pair_schedule(ctx, repo.nfunc(GM, 'GraphicalModel.calculate_many_marginals'))
     check_datavector(ctx, repo.nfunc(GM, 'GraphicalModel.datavector'))
@@ -374,6 +375,38 @@ def check_pair_schedule(ctx, fi):
         raise AnalysisError('calculate_many_marginals: intermediate clique `%s = %s` is in no recognised form' % (mid, mdef))
 
 
+QUERIES = ('project', 'krondot', 'datavector', 'calculate_many_marginals', 'mle')
+
+
+def check_queries_pure(ctx):
+    """Answering a query reads the model: no in-place operation of a query method may reach the stored parameters or the cached marginals
+    (E2 origin analysis).  A query that rewrites `self.potentials[cl]` - e.g. by normalising in place a table that, for a model with one
+    clique, IS the stored potential - makes every later query answer from another distribution."""
+    from ..engines.alias import Scope
+    scope = Scope(ctx.repo, [GM, 'src/mbi/clique_vector.py', 'src/mbi/factor.py', 'src/mbi/domain.py'], {'potentials': 'cv', 'marginals': 'cv'})
+    scope.solve()
+    n = 0
+    seen = set()
+    for name in QUERIES + ('variable_elimination_logspace', 'variable_elimination'):
+        qual = ('GraphicalModel.' + name) if name in QUERIES else name
+        summ = scope.summaries.get((GM, qual))
+        if summ is None:
+            continue
+        fi = ctx.repo.nfunc(GM, qual)
+        for site in summ.sites:
+            k = (name, getattr(site.node, 'lineno', 0), getattr(site.node, 'col_offset', 0), site.what)
+            if k in seen:
+                continue
+            seen.add(k)
+            n += 1
+            bad = sorted(t for t in site.origins if t in ('S:potentials', 'S:marginals') or t.startswith(('P:', 'Pe:')) and not t.endswith(':self'))
+            ctx.ob('queries-pure', fi, site.node, not bad,
+                   '%s acts on %s' % (site.what, 'tables of this call' if not bad else
+                                      'the model\'s own parameters / cached marginals or the caller\'s arguments (%s): later queries answer from the '
+                                      'modified tables' % ', '.join(bad)))
+    ctx.counters['in-place sites in the query methods'] = n
+
+
 def check_datavector(ctx, fi):
     from ..normalise import Defs, expand
     defs = Defs(fi.body)
@@ -393,7 +426,10 @@ def check_datavector(ctx, fi):
         ctx.ob('requested-order', fi, r, ok, 'the normalised vector is scaled to self.total', construct='scaling of ' + U(r)[:50])
     s = [x for x in walk_shallow(fi.node) if isinstance(x, ast.Assign) and isinstance(x.value, ast.Call) and U(x.value.func) == 'sum']
     from ..srcmodel import alpha_text, alpha_of
-    ok = bool(s) and alpha_text(s[0].value.args[0]) == alpha_of('(self.potentials[cl] for cl in self.cliques)')
+    arg0 = expand(s[0].value.args[0], defs, comps=True) if s else None
+    if isinstance(arg0, ast.ListComp):
+        arg0 = ast.GeneratorExp(elt=arg0.elt, generators=arg0.generators)          # the same summands, materialised first
+    ok = bool(s) and alpha_text(arg0) == alpha_of('(self.potentials[cl] for cl in self.cliques)')
     ctx.ob('ve-equations', fi, s[0] if s else fi.node, ok, 'the joint log-density is the sum of all clique potentials of the model')
 
 
